@@ -5,6 +5,7 @@ import (
 	"go/ast"
 	"go/token"
 	"go/types"
+	"sort"
 	"strings"
 )
 
@@ -481,6 +482,17 @@ func (c *FuncCtx) appendSlice(st *State, s, t *Val) *Val {
 	nl := mkAdd(ls, lt)
 	nilv := mkAnd(acc("nil_"+srt, s.S), mkEq(lt, "0"))
 	r := &Val{T: s.T, S: app("mk_"+srt, nb, "0", nl, nilv), Sort: srt}
+	if c.eng.transientSort() == srt {
+		// the result shares storage with s at most
+		st.assume(mkOr(c.transientTerm(s), mkNot(c.transientTerm(r))))
+	}
+	if b, ok := under(sl.Elem()).(*types.Basic); ok && b.Kind() == types.Uint8 {
+		{
+			// string(append(s, t...)) == string(s) + string(t)
+			c.eng.declareUF("bytesToString", fmt.Sprintf("(declare-fun bytesToString (%s) String)", srt))
+			st.assume(mkEq(app("bytesToString", r.S), app("str.++", app("bytesToString", s.S), app("bytesToString", t.S))))
+		}
+	}
 	return r
 }
 
@@ -607,6 +619,22 @@ func (c *FuncCtx) specBuiltin(st *State, name string, x *ast.CallExpr) ([]*Val, 
 	case "isnil":
 		v := c.eval(st, x.Args[0])
 		return b(c.isNilTerm(v)), true
+	case "transient":
+		return b(c.transientTerm(c.eval(st, x.Args[0]))), true
+	case "allocated":
+		// allocated(p): the object p refers to was allocated before this point
+		// (p lies at or below the allocation frontier of its type)
+		v := c.eval(st, x.Args[0])
+		pt, ok := under(v.T).(*types.Pointer)
+		if !ok || !c.eng.isHeapStruct(pt.Elem()) {
+			limitf("allocated: not a reference to a struct of the package")
+		}
+		if c.inCallPre {
+			// every reference a caller can pass exists already: a truth of the
+			// language, not something the caller has to establish
+			return b(tTrue), true
+		}
+		return b(app("<=", v.S, c.frontier(st, structName(pt.Elem())))), true
 	case "indom":
 		m := c.eval(st, x.Args[0])
 		mt := under(m.T).(*types.Map)
@@ -1267,7 +1295,9 @@ func (c *FuncCtx) applyContract(st *State, con *Contract, sig *types.Signature, 
 			c.bindLet(st, cl, st.bound)
 		case "requires":
 			nreq++
+			c.inCallPre = true
 			v := c.eval(st, cl.Expr)
+			c.inCallPre = false
 			if specCall {
 				// specifications are total: no obligation; the postconditions
 				// are only known to hold where the precondition does
@@ -1476,7 +1506,74 @@ func (c *FuncCtx) applyContract(st *State, con *Contract, sig *types.Signature, 
 }
 
 // havocForCall forgets everything the callee may modify.
+// invalidates: does a call of key end the validity of transient slices?
+func (e *Engine) invalidates(key string, con *Contract) bool {
+	if con.Invalidates {
+		return true
+	}
+	if _, isRepo := e.funcs[key]; isRepo && !con.Assumed {
+		for f := range e.modsetOf(key).traces {
+			if fc := e.spec.Contracts[f]; fc != nil && fc.Invalidates {
+				return true
+			}
+		}
+	}
+	return false
+}
+
+// transientSort: the sort of slices that can be transient ([]byte, the only
+// borrowed results of the standard library the package uses), "" if no
+// contract declares "invalidates".
+func (e *Engine) transientSort() string {
+	if e.transSort == nil {
+		t := ""
+		for _, con := range e.spec.Contracts {
+			if con.Invalidates {
+				t = e.sortOf(types.NewSlice(types.Typ[types.Uint8]))
+			}
+		}
+		e.transSort = &t
+	}
+	return *e.transSort
+}
+
+// transientTerm: transient(v) - the slice v may share storage that its
+// provider reuses at its next call (bufio.Reader.ReadLine's line).
+func (c *FuncCtx) transientTerm(v *Val) string {
+	if !strings.HasPrefix(v.Sort, "Sl_") {
+		limitf("transient: not a slice")
+	}
+	uf := "transient_" + v.Sort
+	c.eng.declareUF(uf, fmt.Sprintf("(declare-fun %s (%s) Bool)", uf, v.Sort))
+	return mkAnd(mkNot(acc("nil_"+v.Sort, v.S)), app(uf, v.S))
+}
+
+// invalidateTransients: after the call every slice variable that may be
+// transient holds arbitrary contents (the value model keeps slices as values,
+// so this is where borrowed storage being overwritten shows).
+func (c *FuncCtx) invalidateTransients(st *State) {
+	var vs []*types.Var
+	for o, v := range st.vars {
+		if v != nil && strings.HasPrefix(v.Sort, "Sl_") && !c.heapLocals[o] {
+			if c.eng.transientSort() == v.Sort {
+				vs = append(vs, o)
+			}
+		}
+	}
+	sort.Slice(vs, func(i, j int) bool { return vs[i].Pos() < vs[j].Pos() })
+	for _, o := range vs {
+		old := st.vars[o]
+		nv := c.fresh(o.Name(), old.Sort)
+		st.assume(mkOr(c.transientTerm(old), mkEq(nv, old.S)))
+		st.assume(c.eng.typeFacts(nv, o.Type()))
+		st.vars[o] = &Val{T: o.Type(), S: nv, Sort: old.Sort}
+	}
+}
+
 func (c *FuncCtx) havocForCall(st *State, con *Contract, key string) {
+	if c.eng.invalidates(key, con) {
+		c.invalidateTransients(st)
+	}
 	if _, isRepo := c.eng.funcs[key]; isRepo && !con.Assumed {
 		for _, f := range sortedKeys(c.eng.modsetOf(key).traces) {
 			c.traceHavoc(st, f)
